@@ -677,3 +677,79 @@ Proof.
   assert (Z.of_nat tau = Z.of_nat r + Z.of_nat (S kappa))%Z by lia.
   rewrite Nat2Z.inj_mul. clearbody s d. nia.
 Qed.
+
+(* ================================================================== assembly *)
+Lemma map_nth_seq_gen {A} (l : list A) d : map (fun i => nth i l d) (seq 0 (length l)) = l.
+Proof.
+  induction l as [|a t IH]; [reflexivity|].
+  cbn [length seq map nth]. f_equal. rewrite <- seq_shift, map_map. exact IH.
+Qed.
+
+Lemma qsum_rev_seq (f : nat -> Q) n :
+  qsum (map f (seq 0 (S n))) == qsum (map (fun m => f (n - m)%nat) (seq 0 (S n))).
+Proof.
+  induction n as [|n IH]; [reflexivity|].
+  rewrite (seq_S (S n) 0) at 1. rewrite map_app, qsum_app, IH. cbn [Nat.add map].
+  change (seq 0 (S (S n))) with (0%nat :: seq 1 (S n)). rewrite <- seq_shift. cbn [map]. rewrite map_map.
+  change (qsum (?a :: ?r)) with (a + qsum r). change (qsum [f (S n)]) with (f (S n) + 0).
+  rewrite Nat.sub_0_r. cbn [Nat.sub]. change (qsum []) with 0. ring.
+Qed.
+
+Lemma filter_root (g : nat -> bool) tau : (1 <= tau)%nat ->
+  filter (fun v => negb (Nat.eqb v 0) && g v) (seq 0 tau) = filter g (seq 1 (tau - 1)).
+Proof.
+  intros H. destruct tau as [|t]; [lia|]. cbn [Nat.sub seq filter Nat.eqb negb andb]. rewrite Nat.sub_0_r.
+  apply filter_ext_in. intros v Hv. apply in_seq in Hv. destruct v; [lia | reflexivity].
+Qed.
+
+(* the part of the specification's sum that belongs to components of size kappa + 1 *)
+Definition Rk (phi : Q) (tau kappa : nat) : Q :=
+  qsum (map (fun e => inject_Z (brute (S kappa) e) * W phi (length (all_edges (S kappa))) e)
+            (seq 0 (S (length (all_edges (S kappa))))))
+  * qpn (1 - phi) (S kappa * (tau - S kappa)).
+
+(* REGROUPING (no hypothesis on Q): the exact expectation on K_tau is the sum over kappa of
+   (number of connected graphs) x weights x (elementary symmetric sum of the H values) *)
+Theorem exact_clique_regrouped tau phi Hs : (1 <= tau)%nat -> length Hs = (tau - 1)%nat ->
+  exact_val (seq 0 tau) (all_edges tau) 0 phi (fun v => nth (v - 1) Hs 0) ==
+  qsum (map (fun kappa => Rk phi tau kappa * qsum (map qprod (combs kappa Hs))) (seq 0 tau)).
+Proof.
+  intros Htau HH.
+  set (u := fun v => nth (v - 1) Hs 0).
+  set (V1 := seq 1 (tau - 1)).
+  set (E := all_edges tau).
+  set (G := fun C : list nat => qprod (map u C)).
+  (* 1. each term: weight x G(comp) *)
+  assert (S1 : exact_val (seq 0 tau) E 0 phi u ==
+               qsum (map (fun T => W phi (length E) (length T) * G (comp tau T)) (subseqs E))).
+  { unfold exact_val. apply qsum_map_ext. intros T HT. cbv zeta. rewrite !qpow_nat. unfold W, G.
+    apply Qmult_comp; [reflexivity|].
+    match goal with |- qprod (map u ?X) == _ => assert (Ef : X = comp tau T) end.
+    { unfold comp. apply (filter_root (fun v => same_comp (labels (seq 0 tau) T) 0 v) tau Htau). }
+    rewrite Ef. reflexivity. }
+  rewrite S1. clear S1.
+  (* 2. pick the component among all vertex subsets, swap the sums *)
+  rewrite (qsum_map_ext _ (fun T => qsum (map (fun C => W phi (length E) (length T) * bq (leqb C (comp tau T)) * G C)
+                                              (subseqs V1)))).
+  2:{ intros T _. unfold comp. fold V1.
+      rewrite <- (pick_filter _ V1 G (seq_NoDup _ _)), <- qsum_scale.
+      apply qsum_map_ext. intros C _. ring. }
+  rewrite qsum_swap. cbv beta.
+  (* 3. the weight of each C *)
+  rewrite (qsum_map_ext _ (fun C => G C * Rk phi tau (length C))).
+  2:{ intros C HCin. apply subseqs_spec in HCin.
+      rewrite (qsum_scale_r (G C) (fun T => W phi (length E) (length T) * bq (leqb C (comp tau T))) (subseqs E)).
+      unfold E. rewrite (comp_weight phi tau Htau C HCin), (boundary_count tau Htau C HCin).
+      unfold Rk. cbn [Cr length]. ring. }
+  (* 4. group the vertex subsets by size *)
+  rewrite subseqs_by_size. unfold V1 at 2. rewrite seq_length. replace (S (tau - 1)) with tau by lia.
+  apply qsum_map_ext. intros kappa _.
+  rewrite (qsum_map_ext _ (fun C => Rk phi tau kappa * G C)).
+  2:{ intros C HCin. apply combs_spec in HCin. rewrite (proj2 HCin). ring. }
+  rewrite qsum_scale. apply Qmult_comp; [reflexivity|].
+  assert (HV : map u V1 = Hs).
+  { unfold V1, u. rewrite <- seq_shift, map_map. cbn [Nat.sub]. rewrite <- HH.
+    rewrite (map_ext _ (fun i => nth i Hs 0)) by (intros; rewrite Nat.sub_0_r; reflexivity).
+    apply map_nth_seq_gen. }
+  rewrite <- HV, combs_map, map_map. reflexivity.
+Qed.
